@@ -1178,18 +1178,36 @@ void NifFile::TrimTexturePaths() {
 		if (tex.empty())
 			return tex;
 
-		// Replace multiple slashes or forward slashes with one backslash
-		tex = std::regex_replace(tex, std::regex("/+|\\\\+"), "\\");
+		// Replace any run of slashes and backslashes with one backslash
+		tex = std::regex_replace(tex, std::regex("[/\\\\]+"), "\\");
+
+		std::smatch match;
+
+		// Terrain paths that already are "Data\textures\..." keep their prefix
+		std::string dataPrefix;
+		if (isTerrain && std::regex_search(tex, match, std::regex("^Data\\\\(?=textures\\\\)", std::regex_constants::icase))) {
+			dataPrefix = match[0];
+			tex = tex.substr(dataPrefix.length());
+		}
 
 		// Search for the first occurrence of "\textures\" (only if "textures\" isn't at the start)
-		std::smatch match;
-		std::regex pattern(R"(^(?!textures\\).*?\\textures\\)", std::regex_constants::icase);
+		std::regex pattern(R"(^(?!textures\\)[\s\S]*?\\textures\\)", std::regex_constants::icase);
 	
-		if (std::regex_search(tex, match, pattern))
+		// Without a "textures\" prefix being added afterwards (OB), a second "\textures\" further
+		// down the path would be stripped by the next clean-up, so strip until none is left
+		const bool addsTexturesPrefix = !hdr.GetVersion().IsOB() && !hdr.GetVersion().IsSpecial();
+		while (std::regex_search(tex, match, pattern)) {
 			tex = tex.substr(match[0].length()); // Remove matched string
+			if (addsTexturesPrefix)
+				break;
+		}
 
-		// Remove all backslashes from the front
-		tex = std::regex_replace(tex, std::regex("^\\\\+"), "");
+		// Remove all backslashes from the front (and the whitespace they may expose when nothing is
+		// going to be put in front of the path)
+		if (addsTexturesPrefix || isTerrain)
+			tex = std::regex_replace(tex, std::regex("^\\\\+"), "");
+		else
+			tex = std::regex_replace(tex, std::regex("^[\\\\\\s]+"), "");
 
 		if (!hdr.GetVersion().IsOB() && !hdr.GetVersion().IsSpecial() && is_relative_path(tex)) {
 			// If the path doesn't start with "textures\", add it to the front
@@ -1200,7 +1218,10 @@ void NifFile::TrimTexturePaths() {
 
 		// If the path doesn't start with "Data\", add it to the front
 		if (isTerrain && is_relative_path(tex)) {
-			tex = std::regex_replace(tex, std::regex("^(?!^Data\\\\)", std::regex_constants::icase), "Data\\");
+			if (!dataPrefix.empty())
+				tex = dataPrefix + tex;
+			else
+				tex = std::regex_replace(tex, std::regex("^(?!^Data\\\\)", std::regex_constants::icase), "Data\\");
 		}
 		return tex;
 	};
@@ -1224,24 +1245,25 @@ void NifFile::TrimTexturePaths() {
 					std::string tex = i.get();
 					i.get() = fTrimPath(tex);
 				}
+			}
 
-				auto effectShader = dynamic_cast<BSEffectShaderProperty*>(shader);
-				if (effectShader) {
-					std::string tex = effectShader->sourceTexture.get();
-					effectShader->sourceTexture.get() = fTrimPath(tex);
+			// Effect shaders have no texture set, their paths are members
+			auto effectShader = dynamic_cast<BSEffectShaderProperty*>(shader);
+			if (effectShader) {
+				std::string tex = effectShader->sourceTexture.get();
+				effectShader->sourceTexture.get() = fTrimPath(tex);
 
-					tex = effectShader->normalTexture.get();
-					effectShader->normalTexture.get() = fTrimPath(tex);
+				tex = effectShader->normalTexture.get();
+				effectShader->normalTexture.get() = fTrimPath(tex);
 
-					tex = effectShader->greyscaleTexture.get();
-					effectShader->greyscaleTexture.get() = fTrimPath(tex);
+				tex = effectShader->greyscaleTexture.get();
+				effectShader->greyscaleTexture.get() = fTrimPath(tex);
 
-					tex = effectShader->envMapTexture.get();
-					effectShader->envMapTexture.get() = fTrimPath(tex);
+				tex = effectShader->envMapTexture.get();
+				effectShader->envMapTexture.get() = fTrimPath(tex);
 
-					tex = effectShader->envMaskTexture.get();
-					effectShader->envMaskTexture.get() = fTrimPath(tex);
-				}
+				tex = effectShader->envMaskTexture.get();
+				effectShader->envMaskTexture.get() = fTrimPath(tex);
 			}
 		}
 
